@@ -61,6 +61,19 @@ PROPS = {
                         "parser and is not expressible as a per-function contract here; string-token payloads; redundant parentheses."),
         "trusted_base": [VERUS_TRUST, "three facts about valid UTF-8 (see unit scanner)", "memchr_rs::memchr2 behaves as documented"],
     },
+    "C18": {
+        "level": "proof",
+        "design_ref": "DESIGN.md section 5, C18",
+        "summary": ("Analysis budget gate: limits::first_exceeded_limit is checked by Kani against the staged-order specification for "
+                    "every AnalysisCaps value and every size (so just below / at / just above each default cap are instances); "
+                    "Resolver::emit_analysis_warnings is checked modularly against that contract: on Some(limit) exactly one "
+                    "Warning-severity diagnostic, no error, optimization_plan == None, no analysis pass entered; "
+                    "Runtime::stmt_is_pruned/function_is_pruned are false without a plan."),
+        "not_covered": ("that an unpruned, warning-free run equals the run the program would have had otherwise is C03's statement; "
+                        "cfg::count_program's counts are taken as given (its own correctness is not verified); per-function "
+                        "vectors longer than 2 entries."),
+        "trusted_base": [KANI_TRUST, OS_TRUST],
+    },
 }
 
 
